@@ -389,6 +389,19 @@ def params_for(rng, U, extra=3):
     return us
 
 
+def hair_params(U):
+    """parameters closer to every knot than double precision (exact rationals), on both sides where inside the interval"""
+    p, n, knots = kv_info(U)
+    eps = F(1, 10**20)
+    out = []
+    for k in knots:
+        if k - eps >= U[0]:
+            out.append(k - eps)
+        if k + eps <= U[-1]:
+            out.append(k + eps)
+    return out
+
+
 def nontrivial_kv(U):
     p, n, knots = kv_info(U)
     return p >= 2 or len(knots) > 2
